@@ -1070,4 +1070,179 @@ theorem bang_eq_not (M : Nat) : ∀ f,
             | error e => simp [mapRest]
             | ok p => obtain ⟨rhs, rest'⟩ := p; simp only [mapRest]; exact ih3 _ _ _ _
 
+/-! ### the depth limit: it produces `TooDeep` and nothing else -/
+
+/-- the answer is not `TooDeep` -/
+def notDeep : PRes → Prop
+  | .error (.tooDeep _) => False
+  | _ => True
+
+/-- Raising the limit never changes an answer other than `TooDeep` (same fuel on both sides). -/
+theorem limit_mono {M M' : Nat} (hM : M ≤ M') : ∀ f,
+    (∀ d m ts, notDeep (parseBpN M f d m ts) → parseBpN M' f d m ts = parseBpN M f d m ts) ∧
+    (∀ d ts, notDeep (parsePrefixN M f d ts) → parsePrefixN M' f d ts = parsePrefixN M f d ts) ∧
+    (∀ d m l ts, notDeep (ploopN M f d m l ts) → ploopN M' f d m l ts = ploopN M f d m l ts) := by
+  intro f
+  induction f with
+  | zero =>
+    refine ⟨?_, ?_, ?_⟩
+    · intro d m ts _; simp [parseBpN]
+    · intro d ts _; simp [parsePrefixN]
+    · intro d m l ts _; simp [ploopN]
+  | succ f ih =>
+    obtain ⟨ih1, ih2, ih3⟩ := ih
+    refine ⟨?_, ?_, ?_⟩
+    · intro d m ts h
+      simp only [parseBpN] at h ⊢
+      by_cases hd : d + 1 > M
+      · simp only [hd, if_true, notDeep] at h
+      · have hd' : ¬ d + 1 > M' := by omega
+        simp only [hd, hd', if_false] at h ⊢
+        cases hp : parsePrefixN M f (d+1) ts with
+        | error e =>
+          simp only [hp] at h
+          rw [ih2 (d+1) ts (by rw [hp]; exact h), hp]
+        | ok p =>
+          obtain ⟨lhs, rest⟩ := p
+          simp only [hp] at h
+          rw [ih2 (d+1) ts (by rw [hp]; trivial), hp]
+          exact ih3 _ _ _ _ h
+    · intro d ts h
+      simp only [parsePrefixN] at h ⊢
+      cases ts with
+      | nil => rfl
+      | cons t rest =>
+        simp only at h ⊢
+        cases ha : prefixArm t with
+        | atom n => rfl
+        | wildcard => rfl
+        | unexpected => rfl
+        | paren =>
+          simp only [ha] at h ⊢
+          by_cases hr : rest.head? = some Tok.rparen
+          · simp only [hr, if_true]
+          · simp only [hr, if_false] at h ⊢
+            cases hp : parseBpN M f d 0 rest with
+            | error e =>
+              simp only [hp] at h
+              rw [ih1 d 0 rest (by rw [hp]; exact h), hp]
+            | ok p =>
+              obtain ⟨e, rest'⟩ := p
+              rw [ih1 d 0 rest (by rw [hp]; trivial), hp]
+        | unary u =>
+          simp only [ha] at h ⊢
+          cases hp : parseBpN M f d PREFIX_BP rest with
+          | error e =>
+            simp only [hp] at h
+            rw [ih1 d _ rest (by rw [hp]; exact h), hp]
+          | ok p =>
+            obtain ⟨e, rest'⟩ := p
+            rw [ih1 d _ rest (by rw [hp]; trivial), hp]
+    · intro d m l ts h
+      simp only [ploopN] at h ⊢
+      cases ts with
+      | nil => rfl
+      | cons t rest =>
+        simp only at h ⊢
+        cases hb : binaryOf t with
+        | none => rfl
+        | some o =>
+          simp only [hb] at h ⊢
+          by_cases hl : lbp o < m
+          · simp only [hl, if_true]
+          · simp only [hl, if_false] at h ⊢
+            cases hp : parseBpN M f d (rbp o) rest with
+            | error e =>
+              simp only [hp] at h
+              rw [ih1 d _ rest (by rw [hp]; exact h), hp]
+            | ok p =>
+              obtain ⟨rhs, rest'⟩ := p
+              simp only [hp] at h
+              rw [ih1 d _ rest (by rw [hp]; trivial), hp]
+              exact ih3 _ _ _ _ h
+
+/-- Every frame consumes a token before it opens the next one, so a limit with more room than
+    tokens left is never reached. -/
+theorem room_no_too_deep (M : Nat) : ∀ f,
+    (∀ d m ts, d + ts.length < M → notDeep (parseBpN M f d m ts)) ∧
+    (∀ d ts, d + ts.length ≤ M → notDeep (parsePrefixN M f d ts)) ∧
+    (∀ d m l ts, d + ts.length ≤ M → notDeep (ploopN M f d m l ts)) := by
+  intro f
+  induction f with
+  | zero =>
+    refine ⟨?_, ?_, ?_⟩
+    · intro d m ts _; simp [parseBpN, notDeep]
+    · intro d ts _; simp [parsePrefixN, notDeep]
+    · intro d m l ts _; simp [ploopN, notDeep]
+  | succ f ih =>
+    obtain ⟨ih1, ih2, ih3⟩ := ih
+    refine ⟨?_, ?_, ?_⟩
+    · intro d m ts h
+      simp only [parseBpN]
+      have hd : ¬ d + 1 > M := by omega
+      simp only [hd, if_false]
+      have h2 := ih2 (d+1) ts (by omega)
+      have hb := (bounds M f).2.1 (d+1) ts
+      cases hp : parsePrefixN M f (d+1) ts with
+      | error e => rw [hp] at h2; exact h2
+      | ok p =>
+        obtain ⟨lhs, rest⟩ := p
+        rw [hp] at hb
+        simp only [ResOk, if_true] at hb
+        exact ih3 (d+1) m lhs rest (by omega)
+    · intro d ts h
+      simp only [parsePrefixN]
+      cases ts with
+      | nil => simp [notDeep]
+      | cons t rest =>
+        simp only [List.length_cons] at h ⊢
+        cases ha : prefixArm t with
+        | atom n => simp [notDeep]
+        | wildcard => simp [notDeep]
+        | unexpected => simp [notDeep]
+        | paren =>
+          simp only
+          by_cases hr : rest.head? = some Tok.rparen
+          · simp [hr, notDeep]
+          · simp only [hr, if_false]
+            have h1 := ih1 d 0 rest (by omega)
+            cases hp : parseBpN M f d 0 rest with
+            | error e => rw [hp] at h1; exact h1
+            | ok p =>
+              obtain ⟨e, rest'⟩ := p
+              simp only
+              cases rest' with
+              | nil => simp [expectRParen, notDeep]
+              | cons t' r' =>
+                simp only [expectRParen]
+                by_cases ht : t' = Tok.rparen <;> simp [ht, notDeep]
+        | unary u =>
+          simp only
+          have h1 := ih1 d PREFIX_BP rest (by omega)
+          cases hp : parseBpN M f d PREFIX_BP rest with
+          | error e => rw [hp] at h1; exact h1
+          | ok p => obtain ⟨e, rest'⟩ := p; simp [notDeep]
+    · intro d m l ts h
+      simp only [ploopN]
+      cases ts with
+      | nil => simp [notDeep]
+      | cons t rest =>
+        simp only [List.length_cons] at h ⊢
+        cases hb : binaryOf t with
+        | none => simp [notDeep]
+        | some o =>
+          simp only
+          by_cases hl : lbp o < m
+          · simp [hl, notDeep]
+          · simp only [hl, if_false]
+            have h1 := ih1 d (rbp o) rest (by omega)
+            have hbd := (bounds M f).1 d (rbp o) rest
+            cases hp : parseBpN M f d (rbp o) rest with
+            | error e => rw [hp] at h1; exact h1
+            | ok p =>
+              obtain ⟨rhs, rest'⟩ := p
+              rw [hp] at hbd
+              simp only [ResOk, if_true] at hbd
+              exact ih3 d m _ rest' (by omega)
+
 end Neumann.Parse
